@@ -162,7 +162,7 @@ func RunC03(c *Ctx) error {
 			// inputs that are not sentences: where error recovery makes Parse succeed anyway,
 			// terminal attributes must still be the scanner's own token objects
 			if hasErrorAlt(gr) {
-				for k := 0; k < nSent/2+2; k++ {
+				for k := 0; k < 3*nSent+4; k++ {
 					s := gr.Derive(r.Fork("rs"), 2+r.Intn(8))
 					toks := gr.Mutate(r, s.Tokens, 1+r.Intn(4))
 					txt, laid := gr.Layout(r, toks)
@@ -202,7 +202,7 @@ func RunC03(c *Ctx) error {
 			evals += r.Evals
 			sentences++
 			for k, v := range r.Stats {
-				if strings.HasPrefix(k, "fault-") {
+				if strings.HasPrefix(k, "fault-") || strings.HasPrefix(k, "recovered-") {
 					fired[k] += v
 				}
 			}
